@@ -15,7 +15,7 @@ func init() {
 	core.Register(&core.Property{
 		ID: "C02",
 		Decided: "Structural conditions of lexical capture (the behaviour over all nestings, escape routes and call orders is NOT decided): " +
-			"(R1) capture does not select a frame by dynamic-link arithmetic driven by a compile-time lexical distance: either the MakeCell handler does not index the frame array with a value derived from a fetched operand, or the compiler only ever emits distance 0; " +
+			"(R1) capture does not select a frame by its position on the call stack: the MakeCell handler consults no frame other than the active one (frames[fp]) — a variable of a function further out reaches a new closure through the enclosing closure's own cell — or the compiler only ever emits distance 0; " +
 			"(R2) a cell points into the captured frame's own storage: the MakeCell handler takes the address of a slot of CaptureLocals() (heap storage of that activation), LoadFree/StoreFree go through the cell's Value/Set, and no frame method re-uses the captured/extended locals slice of an earlier activation (no re-slice of the field assigned back to it); " +
 			"(R3) name resolution is nearest-scope-first: before walking outward, SymbolTable.Resolve consults only its own tables — never a cache that belongs to an enclosing function — so an inner declaration shadows a name the function already captured.",
 		NotCovered:  "Sharing of one binding between sibling closures across all call orders, the named-function self slot, capture across spawn / Call from Go.",
@@ -35,10 +35,11 @@ func c02r1(c *core.Ctx) {
 	info := vmp.TypesInfo
 	vmT := core.MustType(vmp, "VirtualMachine")
 	frames := fieldByName(vmT, "frames")
-	_, _, fetch, _, _ := vmPrims(p)
-	if frames == nil {
-		core.Undecidedf("VirtualMachine.frames not found")
+	fpF := fieldByName(vmT, "fp")
+	if frames == nil || fpF == nil {
+		core.Undecidedf("VirtualMachine.frames / fp not found")
 	}
+
 	var clause *ast.CaseClause
 	for _, cc := range t.Switch.Body.List {
 		cl := cc.(*ast.CaseClause)
@@ -51,38 +52,6 @@ func c02r1(c *core.Ctx) {
 	if clause == nil {
 		core.Undecidedf("no MakeCell clause in the dispatch switch")
 	}
-	// locals derived from fetch()
-	derived := map[types.Object]bool{}
-	for changed := true; changed; {
-		changed = false
-		for _, s := range clause.Body {
-			ast.Inspect(s, func(n ast.Node) bool {
-				as, ok := n.(*ast.AssignStmt)
-				if !ok || len(as.Lhs) != len(as.Rhs) {
-					return true
-				}
-				for i, r := range as.Rhs {
-					dep := false
-					ast.Inspect(r, func(k ast.Node) bool {
-						if ce, ok := k.(*ast.CallExpr); ok && calleeOf(info, ce) == fetch {
-							dep = true
-						}
-						if id, ok := k.(*ast.Ident); ok && derived[info.Uses[id]] {
-							dep = true
-						}
-						return true
-					})
-					if id, ok := as.Lhs[i].(*ast.Ident); ok && dep {
-						if o := objOfIdent(info, id); o != nil && !derived[o] {
-							derived[o] = true
-							changed = true
-						}
-					}
-				}
-				return true
-			})
-		}
-	}
 	vmSide := false
 	var at token.Pos
 	for _, s := range clause.Body {
@@ -91,13 +60,12 @@ func c02r1(c *core.Ctx) {
 			if !ok || fieldOf(info, ix.X) != frames {
 				return true
 			}
-			ast.Inspect(ix.Index, func(k ast.Node) bool {
-				if id, ok := k.(*ast.Ident); ok && derived[info.Uses[id]] {
-					vmSide = true
-					at = ix.Pos()
-				}
-				return true
-			})
+			// only the active frame (frames[fp]) may be consulted: any other index is a
+			// frame selected by call-stack position
+			if f := fieldOf(info, ix.Index); f == nil || f != fpF {
+				vmSide = true
+				at = ix.Pos()
+			}
 			return true
 		})
 	}
@@ -125,7 +93,7 @@ func c02r1(c *core.Ctx) {
 		pos = p.Pos(at)
 	}
 	c.Check(!(vmSide && compilerSide), "vm.eval|MakeCell|operand-driven-frame-selection", pos,
-		"the MakeCell handler indexes the frame array with fp minus a fetched operand and the compiler emits a non-zero lexical distance: the frame at fp-k is the defining function's activation only when the closure is created on the same call path it was defined on — f(1)(2)(3) with three nested functions reads a foreign frame")
+		"the MakeCell handler reads a frame other than the active one (selected by call-stack position) while the compiler emits a non-zero lexical distance: the frame k below the top is the defining function's activation only when the closure is created on the same call path it was defined on — f(1)(2)(3) with three nested functions reads a foreign frame")
 }
 
 func c02r2(c *core.Ctx) {
